@@ -830,7 +830,7 @@ type Opts struct {
 // libWidths are the key widths in 8..256 for which the library has a key type (dictionaries written by its own encoder).
 var libWidths = [][2]any{{"u", 8}, {"u", 9}, {"u", 15}, {"u", 16}, {"u", 32}, {"u", 64}, {"b", 80}, {"b", 96}, {"b", 256}}
 
-// randomDict draws a key->value map. shape: 0 random, 1 twin (a fork whose two sub-trees are equal), 2 dense block with
+// randomDict draws a key->value map. shape: 5 comb (one fork per entry on the path of a base key), 0 random, 1 twin (a fork whose two sub-trees are equal), 2 dense block with
 // one value, 3 random keys with one value, 4 pairs of neighbouring keys (see valueRefLikeSibling).
 func randomDict(rng *rand.Rand, n, size, shape int, inlineOnly bool) []item {
 	m := map[string]item{}
@@ -890,6 +890,18 @@ func randomDict(rng *rand.Rand, n, size, shape int, inlineOnly bool) []item {
 			put(k, a)
 			put(flip(k, n-1-rng.Intn(min(n, 1+rng.Intn(8)))), b)
 		}
+	case 5:
+		// comb: key i shares exactly i bits with a base key, so the base key's path has one fork per entry: 33..72 forks for
+		// keys of 40 bits and more (cursor positions deeper than 32 and than 64 steps), n - 1 for shorter keys
+		base := randBits(rng, n)
+		depth := 33 + rng.Intn(40)
+		if depth > n-1 {
+			depth = n - 1
+		}
+		put(base, val())
+		for i := 0; i < depth; i++ {
+			put(flip(base[:i+1], i)+randBits(rng, n-i-1), val())
+		}
 	case 3:
 		one := val()
 		for tries := 0; len(m) < size && tries < size*20; tries++ {
@@ -910,6 +922,25 @@ func randomDict(rng *rand.Rand, n, size, shape int, inlineOnly bool) []item {
 	}
 	sort.Slice(out, func(i, j int) bool { return out[i].k < out[j].k })
 	return out
+}
+
+// deepestPair: the two keys (items are sorted) with the longest common prefix - the deepest leaves of the Patricia tree
+func deepestPair(items []item) []string {
+	best, bi := -1, 0
+	for i := 0; i+1 < len(items); i++ {
+		a, b := items[i].k, items[i+1].k
+		l := 0
+		for l < len(a) && a[l] == b[l] {
+			l++
+		}
+		if l > best {
+			best, bi = l, i
+		}
+	}
+	if best < 0 {
+		return nil
+	}
+	return []string{items[bi].k, items[bi+1].k}
 }
 
 func sampleKeys(rng *rand.Rand, items []item, n, present, absent int) []string {
@@ -983,6 +1014,9 @@ func Drive(w *ev.Writer, o Opts) {
 		if d%7 == 5 {
 			shape = 4
 		}
+		if d%5 == 4 {
+			shape = 5
+		}
 		var n int
 		lib := d%3 == 0 && shape != 4
 		var kind string
@@ -1006,12 +1040,18 @@ func Drive(w *ev.Writer, o Opts) {
 		if n < 16 && size > 1<<uint(n-1) {
 			size = 1 << uint(n-1)
 		}
+		if shape == 5 && !lib && n < 64 && rng.Intn(4) != 0 {
+			n = []int{64, 128, 255, 256}[rng.Intn(4)]
+		}
 		items := randomDict(rng, n, size, shape, lib)
 		np, na := 6, 4
 		if thorough {
 			np, na = 12, 6
 		}
 		keys := sampleKeys(rng, items, n, np, na)
+		if shape == 5 {
+			keys = append(deepestPair(items), keys...)
+		}
 		// the same prover is asked again for keys it has already proven, after other proofs
 		keys = append(keys, keys[0], keys[rng.Intn(len(keys))])
 		src := fmt.Sprintf("rand:shape%d", shape)
